@@ -13,6 +13,7 @@ import (
 	"github.com/go-kid/ioc/container/processors"
 	"github.com/go-kid/ioc/util/vsync"
 
+	"verif/internal/core"
 	"verif/internal/envx"
 )
 
@@ -550,6 +551,7 @@ func IsNilSlot(v any) bool {
 
 // RunGraph executes one real start of the program under the chooser and collects observations.
 func RunGraph(p *GraphProg, ch *envx.Chooser) *GraphObs {
+	core.Tick()
 	rt := &RT{Ch: ch, Faults: p.Faults, Mode: p.Mode}
 	o := &GraphObs{Prog: p, RT: rt}
 	names := map[string]bool{}
